@@ -688,6 +688,32 @@ def is_compilable(source: str) -> bool:
         return False
 
 
+def _functions_called_by(node: ast.Call) -> Sequence[ast.AST]:
+    """The arguments of a call of a builtin or standard library function that it calls."""
+    name = getattr(node.func, "id", getattr(node.func, "attr", None))
+    calls_first_argument = ("map", "filter", "filterfalse", "starmap", "takewhile", "dropwhile")
+    calls_first_argument += ("reduce", "defaultdict", "iter", "partial")
+    if name in calls_first_argument:
+        return node.args[:1]
+    if name in ("sorted", "max", "min", "sort", "groupby", "nlargest", "nsmallest", "accumulate"):
+        return [keyword.value for keyword in node.keywords if keyword.arg in ("key", "func", None)]
+
+    return []
+
+
+def _may_call_something_unsafe(function: ast.AST, safe_callable_whitelist: Collection[str]) -> bool:
+    if isinstance(function, ast.Name):
+        return function.id not in safe_callable_whitelist
+    if isinstance(function, ast.Attribute):
+        return function.attr not in safe_callable_whitelist
+    if isinstance(function, ast.Lambda):
+        return has_side_effect(function.body, safe_callable_whitelist)
+    if isinstance(function, ast.Constant):
+        return False  # None
+
+    return True
+
+
 def has_side_effect(node: ast.AST, safe_callable_whitelist: Collection[str] = frozenset()) -> bool:
     """Determine if a statement has a side effect.
 
@@ -838,6 +864,13 @@ def has_side_effect(node: ast.AST, safe_callable_whitelist: Collection[str] = fr
 
         # f()() calls what f returns, which is not known by name
         if any(isinstance(child, ast.Call) for child in ast.walk(node.func)):
+            return True
+
+        # map(log, xs) and sorted(xs, key=log) call log
+        if any(
+            _may_call_something_unsafe(function, safe_callable_whitelist)
+            for function in _functions_called_by(node)
+        ):
             return True
 
         return (
